@@ -10,6 +10,8 @@ CONSTANTS
   MaxSteps = 0
   Pows <- None
   Fault = FALSE
+  MaxUnits = 0
+  Cached = FALSE
 INVARIANT StrapB
 INVARIANT EmitStrap
 CHECK_DEADLOCK FALSE
